@@ -137,7 +137,11 @@ public:
 
   void append(const byte* data, usize size)
   {
+    bool inside = buffer && data >= bufferStart && data <= bufferEnd; // data lies in the buffer itself, which resize() moves or reallocates
+    usize offset = inside ? data - bufferStart : 0;
     resize(bufferEnd - bufferStart + size);
+    if(inside)
+      data = bufferStart + offset;
     Memory::copy(bufferEnd - size, data, size);
     if(buffer)
       *bufferEnd = 0;
